@@ -652,9 +652,11 @@ def run_check(check: Check, tier: str = "quick", seed: int = 0) -> int:
                             d["unknown"] == 0 else ("known-finding" if d.get("known") else
                                                     ("failed" if d["sat"] else "undecided")),
                             solver_s=round(d["seconds"], 3), at=f"{d['func']}:{d['line']}"))
+    n_known = sum(1 for d in by.values() if d.get("known"))
     cov = dict(
-        obligations=len(by),
+        obligations=len(by) - n_known,
         discharged=discharged,
+        obligations_failing_as_listed_known_findings=n_known,
         obligation_instances=sum(d["instances"] for d in by.values()),
         checker_cmd=f"./vcheck check {prop} --tier {tier}  (z3 {z3.get_version_string()} via the pyvc VC generator "
                     f"over the AST of {repo_root}/src)",
